@@ -207,8 +207,7 @@ def rule_r2_header(ctx):
     ctx.r.floor(rid, n_checked, 4, "return values of HTTPRequestParser.received")
 
 
-def rule_r2_receivers(ctx):
-    rid = "C02.R2b"
+def rule_r2_receivers(ctx, rid="C02.R2b"):
     ctx.r.rule(rid, "consumed-count accounting in the body receivers (fixed: rm or len(data); chunked trailer exits: orig - (len(carry + rest) - cut))")
     p = ctx.p
     # FixedStreamReceiver
